@@ -210,6 +210,11 @@ fn run_cmd(m: &mut M, w: &[&str]) -> String {
             m.arenas[j] = src;
             "()".into()
         }
+        "fmtid" => {
+            // Display of an id under several format specs
+            let x = m.r(w[1]);
+            format!("[{}] [{:>4}] [{:<3}] [{:.1}] [{:05}]", x, x, x, x, x)
+        }
         "ghost_at" => {
             // ghost_at G P : the id at 1-based position P of the current arena (live nodes only)
             let p: usize = w[2].parse().unwrap();
